@@ -69,6 +69,12 @@ var zzContexts = []zzCtx{
 	{"if (a) { return 1; H }", true, false},
 	{"function f(p) { if (p) { return p; H } return 2; } f(1);", true, true},
 	{"while (a) { return 3; H }", true, false},
+	// after a complete construct (the parser's mode flags must be back to normal)
+	{"function g(q) { local z; return q; } H", true, false},
+	{"function g(q) { return q; } if (a) { H }", true, false},
+	{"function g(q) { return q; } function f(p) { H } f(1);", true, true},
+	{"x = a ? 1 : 2; H", true, false},
+	{"switch (a) { case 1 { t(1); } default { t(2); } } H", true, false},
 	{"x = H;", false, false},
 	{"return H;", false, false},
 	{"t(H);", false, false},
